@@ -129,6 +129,9 @@ func (ft *ftrans) setFlags(f ftFlags) {
 
 // rng: the forms translated before keep their translation; what they reject goes to the general form
 func (ft *ftrans) rng(s *ast.RangeStmt, e env, k cont) node {
+	if n := ft.drainLoop(s, e, k); n != nil {
+		return n
+	}
 	if ft.inLoop || ft.inFold {
 		return ft.rngOld(s, e, k) // inside a loop of an old form: rejected there, the outermost loop is retried
 	}
@@ -302,13 +305,29 @@ func (ft *ftrans) rngNew(s *ast.RangeStmt, e env, k cont) node {
 	var pre []prelude
 	xs := ft.expr(s.X, e, &pre)
 	u := ft.t.under(xs.t)
-	if _, _, isMap := mapParts(u); isMap {
-		failf("a loop over a map that cannot be shown independent of the iteration order is outside the subset")
+	var et string
+	if kt, vt, isMap := mapParts(u); isMap {
+		if ft.f.cfg == nil || !ft.f.cfg.MapOrderCanonical {
+			failf("a loop over a map that cannot be shown independent of the iteration order is outside the subset (\"map_order_canonical\")")
+		}
+		switch {
+		case !blankExpr(s.Key) && !blankExpr(s.Value):
+			failf("range over a map with both key and value is outside the subset")
+		case !blankExpr(s.Key):
+			// for k := range m: the keys, as values of a loop without index
+			s2 := *s
+			s2.Key, s2.Value = nil, s.Key
+			s = &s2
+			xs, et = val{s: "(Gen.Rt.Map.keys " + atom(xs.s) + ")"}, kt
+		default:
+			xs, et = val{s: "(Gen.Rt.Map.vals " + atom(xs.s) + ")"}, vt
+		}
+	} else {
+		if !strings.HasPrefix(u, "[]") {
+			failf("range over a value of type %q is outside the subset", xs.t)
+		}
+		et = u[2:]
 	}
-	if !strings.HasPrefix(u, "[]") {
-		failf("range over a value of type %q is outside the subset", xs.t)
-	}
-	et := u[2:]
 	// the slice is evaluated once, before the loop: the body may assign the variable it came from
 	e2 := e
 	vname, vt := "_", ft.t.leanType(et)
@@ -858,4 +877,130 @@ func (ft *ftrans) mutCallStmt(ce *ast.CallExpr, e env, k cont) node {
 		failf("internal: receiver-updating call of %s", g.cfg.Go)
 	}
 	return ft.wrap(pre, nLet{name: b.lean, typ: ft.t.leanType(b.typ), val: v.s, body: k(e)})
+}
+
+// drainLoop: `for k[, v] := range x.f { <ignored calls>; delete(x.f, k) }` over a map field of a translated struct
+// variable: every visited key is deleted and nothing else happens — the map ends empty, whatever the order
+// (`Gen.Rt.Map.clear`; the nil map stays nil)
+func (ft *ftrans) drainLoop(s *ast.RangeStmt, e env, k cont) node {
+	if s.Tok != token.DEFINE || blankExpr(s.Key) {
+		return nil
+	}
+	kid, ok := s.Key.(*ast.Ident)
+	if !ok || kid.Obj == nil {
+		return nil
+	}
+	var del *ast.CallExpr
+	for _, st := range s.Body.List {
+		es, ok := st.(*ast.ExprStmt)
+		if !ok {
+			return nil
+		}
+		ce, ok := es.X.(*ast.CallExpr)
+		if !ok {
+			return nil
+		}
+		if dc := deleteCall(ce); dc != nil {
+			if del != nil {
+				return nil
+			}
+			del = dc
+			continue
+		}
+		if !ft.ignored(ce) {
+			return nil
+		}
+	}
+	if del == nil || render(del.Args[0]) != render(s.X) || render(s.X) == "?" {
+		return nil
+	}
+	if id, ok := unparen(del.Args[1]).(*ast.Ident); !ok || id.Obj != kid.Obj {
+		return nil
+	}
+	if _, isSel := unparen(s.X).(*ast.SelectorExpr); !isSel {
+		return nil
+	}
+	if ft.inLoop || ft.inFold {
+		failf("nested loops are outside the subset")
+	}
+	b, field, m := ft.mapField(s.X, e)
+	ft.rebinds(lhsBaseObj(s.X))
+	return nLet{name: b.lean, val: "{ " + b.lean + " with " + field + " := Gen.Rt.Map.clear " + atom(m.s) + " }", body: k(e)}
+}
+
+func lhsBaseObj(x ast.Expr) *ast.Object {
+	if id, _ := lhsBase(unparen(x)); id != nil {
+		return id.Obj
+	}
+	return nil
+}
+
+// nilSliceResult: a result of slice type under "nil_slices": `none` for the literal nil, `some xs` for a value that
+// is visibly not nil — a variable that is only ever assigned composite literals, make(...) or append(itself, …)
+func (ft *ftrans) nilSliceResult(x ast.Expr, v val, e env) string {
+	if v.t == "nil" {
+		return "none"
+	}
+	id, ok := unparen(x).(*ast.Ident)
+	if !ok || id.Obj == nil {
+		if _, isLit := unparen(x).(*ast.CompositeLit); isLit {
+			return "some " + atom(v.s)
+		}
+		failf("nil_slices: the returned slice is neither nil nor a variable that is visibly not nil")
+	}
+	okAll, seen := true, false
+	check := func(rhs ast.Expr) {
+		seen = true
+		switch r := unparen(rhs).(type) {
+		case *ast.CompositeLit:
+			return
+		case *ast.CallExpr:
+			if f, isID := r.Fun.(*ast.Ident); isID && f.Obj == nil {
+				if f.Name == "make" {
+					return
+				}
+				if f.Name == "append" && len(r.Args) >= 1 {
+					if a, isA := unparen(r.Args[0]).(*ast.Ident); isA && a.Obj == id.Obj {
+						return
+					}
+				}
+			}
+		}
+		okAll = false
+	}
+	ast.Inspect(ft.f.decl.Body, func(n ast.Node) bool {
+		switch c := n.(type) {
+		case *ast.AssignStmt:
+			for i, l := range c.Lhs {
+				if li, isID := l.(*ast.Ident); isID && li.Obj == id.Obj {
+					if len(c.Rhs) == len(c.Lhs) {
+						check(c.Rhs[i])
+					} else {
+						okAll = false
+					}
+				}
+			}
+		case *ast.ValueSpec:
+			for i, nm := range c.Names {
+				if nm.Obj == id.Obj {
+					if i < len(c.Values) {
+						check(c.Values[i])
+					} else {
+						okAll = false // var x []T: nil
+					}
+				}
+			}
+		case *ast.UnaryExpr:
+			if c.Op == token.AND {
+				if a, isA := unparen(c.X).(*ast.Ident); isA && a.Obj == id.Obj {
+					okAll = false
+				}
+			}
+		}
+		return true
+	})
+	if !okAll || !seen {
+		failf("nil_slices: the returned variable %s may be nil", id.Name)
+	}
+	return "some " + atom(v.s)
 }
